@@ -299,7 +299,9 @@ def _shard(args):
         except Violation:
             pass
         except hypothesis.errors.Flaky as e:  # pragma: no cover
-            stats["error"] = "flaky: " + repr(e)[:300]
+            # Hypothesis saw a case fail once and pass when it ran it again (a timeout or memory guard that fired under
+            # load, state carried between cases).  Not a verdict: the parent re-runs the recorded case and decides.
+            stats["flaky"] = repr(e)[:600]
     except Exception:
         stats["error"] = traceback.format_exc()[-3000:]
     return _ship(stats)
@@ -414,6 +416,7 @@ def run_property(prop_id: str, tier: str, seed: int) -> int:
     samples = []
     budget_exhausted = False
     exhaustive_evals = 0
+    flaky_shards: list = []
     for job, res in zip(jobs, results):
         if res["error"]:
             print(f"HARNESS ERROR in shard {job[3]} ({job[6]}):\n{res['error']}", file=sys.stderr)
@@ -428,6 +431,14 @@ def run_property(prop_id: str, tier: str, seed: int) -> int:
         for s in res["samples"]:
             if len(samples) < 8:
                 samples.append(s)
+        if res.get("flaky"):
+            flaky_shards.append({"shard": job[3], "what": res["flaky"][:300]})
+            print(f"warning: shard {job[3]} ended with an unreliable example (failed once, passed when repeated): {res['flaky'][:300]}", file=sys.stderr)
+            if res["failure"] is not None:
+                again = guarded(lambda c: run_check(mod, c), res["failure"][0])
+                if again.ok or again.excluded:
+                    print("warning: the recorded case passes when it is run again; not reported", file=sys.stderr)
+                    res["failure"] = None
         if res["failure"] is not None:
             case, detail = res["failure"]
             path = write_replay(prop_id, case, detail)
@@ -468,6 +479,7 @@ def run_property(prop_id: str, tier: str, seed: int) -> int:
         "stale_known_findings": stale,
         "shards": shards,
         "budget_exhausted": budget_exhausted,
+        "unreliable_examples": flaky_shards,
         "exhaustive": False,
         "missing_essential_labels": missing,
         **extra_cov,
